@@ -139,7 +139,7 @@ def handle : Handler := fun op a => do
   | "negate" =>
     let d ← asDict (← field a "schema")
     let ctx ← decCtx (← field a "ctx")
-    return encMut (negateConstraints ctx (← asBool (← field a "canNeg")) d (← asStr (← field a "candidate"))
+    return encMut (negateConstraints (← decVariant (← field a "variant")) ctx (← asBool (← field a "canNeg")) d (← asStr (← field a "candidate"))
                     (← asList asStr (← field a "enabled")))
   | "changeProperties" =>
     let d ← asDict (← field a "schema")
